@@ -309,7 +309,7 @@ func init() {
 func ruleC02FileRelative(p *Prog, r *Res) {
 	const rule = "C02-h file-relative-compare-guarded"
 	r.Rule(rule + ": file-relative stream fields of two streams are compared only under a.r == b.r")
-	relative := map[string]bool{"HostGroup": true, "ClientHost": true, "ServerHost": true, "FirstPacketTimeNS": true, "LastPacketTimeNS": true, "PacketInfoStart": true, "DataStart": true}
+	relative := map[string]bool{"HostGroup": true, "ClientHost": true, "ServerHost": true, "FirstPacketTimeNS": true, "LastPacketTimeNS": true, "PacketInfoStart": true, "DataStart": true, "index": true, "Index()": true}
 	// install the delegate resolver now that p is available
 	comparatorDelegate = func(info *types.Info, lit *ast.FuncLit, a, b types.Object) (*Fn, bool, bool) {
 		if len(lit.Body.List) != 1 {
@@ -408,7 +408,20 @@ func ruleC02FileRelative(p *Prog, r *Res) {
 			continue
 		}
 		fieldOfStream := func(e ast.Expr) (types.Object, string) {
-			se, ok := ast.Unparen(e).(*ast.SelectorExpr)
+			e = ast.Unparen(e)
+			if c, ok := e.(*ast.CallExpr); ok && len(c.Args) == 0 {
+				// accessor of a file-relative value: X.Index()
+				if se, ok := ast.Unparen(c.Fun).(*ast.SelectorExpr); ok && se.Sel.Name == "Index" {
+					o := identObj(info, se.X)
+					for _, s := range streams {
+						if s == o {
+							return o, "Index()"
+						}
+					}
+				}
+				return nil, ""
+			}
+			se, ok := e.(*ast.SelectorExpr)
 			if !ok {
 				return nil, ""
 			}
